@@ -140,6 +140,8 @@ def run(ctx):
         payload.update({"domain": dom, "pddl_problem": prob})
         if io.has_repeated_arith_operand(dom, prob):
             feats = set(feats) | {"repeated-arith-operand"}
+        if io.pddl_lib_drops_duplicate_effect(dom):
+            feats = set(feats) | {"duplicate-effect-in-and"}
         plans = forward_plans(P, rng, max_depth=3, max_plans=2)
         for rname, kw in (("up", dict(force_up_pddl_reader=True)), ("ai", dict(force_ai_planning_reader=True))):
             reader = PDDLReader(**kw)
